@@ -24,6 +24,7 @@ RULE = (
     "on torus, multiples of the pooling factor for UNet). Non-trivial: >=1 convolution and >=1 nonlinearity/normalisation "
     "executed (from the trace), output not constant, g != e; distinct by architecture key."
 )
+RULE += " Fixed corner architectures incl. a wide (64-channel) ResNet; near-domain: U-Nets with 3x3 / 4x4 upsample filters (refused by the library; a tree that accepts them must commute)."
 ASSUMPTIONS = [
     "reference action; harness-built invariant banks (M=3 conv, M=2 upsample)",
     "layer-synchronised tolerance 1e-4 (grey to 1e-3); end-to-end threshold max(1e-3, 100*kappa*1.2e-7); kappa>2000 => perturbation halved and re-drawn",
@@ -51,6 +52,11 @@ def cases(tier, seed):
 
 
 FIXED = [
+    # near-domain (reject-or-commute): an equivariant U-Net whose transposed convolutions use 3x3 / 4x4 upsample filters instead
+    # of the 2x2 ones the architecture is written for. The library refuses them (shape error at the skip concatenation); a tree
+    # that accepts them claims an equivariant network, which must then commute like any other
+    {"cls": "UNet", "D": 2, "equivariant": True, "near_domain": True, "up_M": 3, "in_sig": [[[0, 0], 1], [[1, 0], 1]], "out_sig": [[[1, 0], 1]], "depth": 2, "num_blocks": 1, "num_conv": 1, "num_downsamples": 1, "activation": "gelu", "norm": False, "preact": False, "bias": "auto", "bank_ks": [0, 1, 2], "torus": [True, True], "N": [8, 8]},
+    {"cls": "UNet", "D": 2, "equivariant": True, "near_domain": True, "up_M": 4, "in_sig": [[[0, 0], 2]], "out_sig": [[[0, 0], 1], [[1, 0], 1]], "depth": 1, "num_blocks": 1, "num_conv": 1, "num_downsamples": 1, "activation": "relu", "norm": False, "preact": False, "bias": "mean", "bank_ks": [0, 1, 2], "torus": [False, False], "N": [4, 8]},
     # a wide network (64 channels per type, default scalar+vector mid types): code paths gated on the layer width
     {"cls": "ResNet", "D": 2, "equivariant": True, "in_sig": [[[0, 0], 1], [[1, 0], 1]], "out_sig": [[[1, 0], 1], [[0, 0], 1]], "depth": 64, "num_blocks": 1, "num_conv": 1, "num_downsamples": 1, "activation": "gelu", "norm": False, "preact": False, "bias": "auto", "bank_ks": [0, 1, 2], "torus": [True, True], "N": [4, 4]},
     {"cls": "UNet", "D": 2, "equivariant": True, "in_sig": [[[0, 1], 2]], "out_sig": [[[0, 1], 1]], "depth": 2, "num_blocks": 1, "num_conv": 1, "num_downsamples": 1, "activation": "relu", "norm": False, "preact": False, "bias": "auto", "bank_ks": [0, 1, 2], "torus": [True, True], "N": [4, 4]},
@@ -230,6 +236,8 @@ def run(case, ctx):
     except Exception as e:
         import traceback
 
+        if cfg.get("near_domain"):
+            return result(key, [], False, evals=evals, obs={"near_domain_refused": 1}, hist={"cls": cfg["cls"] + "-near-domain", "D": D})
         return result(key, [viol(f"network-exception-{type(e).__name__}", f"{type(e).__name__}: {str(e)[:300]}; {key}; {traceback.format_exc()[-500:]}")], True, evals=evals, hist={"cls": cfg["cls"], "D": D})
     hist = {"cls": cfg["cls"], "D": D, "jit_variant": jit_note if "jit_note" in dir() else "not-run", "activation": str(cfg["activation"]), "norm": cfg["norm"], "bias": str(cfg["bias"]), "layers": sorted(set(res["layers"])), "pseudo": any(t[1] == 1 for t, _ in mlgen.sig_of(cfg["in_sig"]) + mlgen.sig_of(cfg["out_sig"]))}
     if status not in ("held", "violated"):
